@@ -236,6 +236,29 @@ def analyse_wrapper(mod, cfg, fn, op, ty, var, names):
     if fm:
         res['fastmath'] = True
     ret = ev.ret
+    # position uniformity (C13): lane i of the result is the same function of lane i of the operands as lane 0 is of lane 0
+    try:
+        if ret is not None and not isinstance(ret, (lanes.Ptr, dict)) and n > 1 and T.width(ret) % n == 0 and T.width(ret) // n >= 8:
+            from . import dtree
+            wl = T.width(ret) // n
+            l0 = T.canon(T.slice_(ret, 0, wl))
+            bad_u = [i for i in range(1, n) if dtree.rename_lane(T.slice_(ret, i * wl, wl), i) != l0]
+            res['uniform'] = not bad_u
+            if bad_u:
+                res['nonuniform_lanes'] = bad_u[:4]
+            if getattr(op, 'whole', False) and getattr(op, 'elementwise', False):
+                # lane dependence of an element-wise operation whose spec is a whole-register one (conversions, ldexp)
+                for i in range(n):
+                    li = T.canon(T.slice_(ret, i * wl, wl))
+                    if len(li) == 1 and li[0][0] == 's' and li[0][1].name.startswith('call:llvm.x86.avx512.mask.scalef') and li[0][2] == i * wl:
+                        continue            # lane i of a lane-wise hardware instruction kept as one whole-register term (operand lanes are checked by the spec)
+                    dep = T.atoms_of(li)
+                    bad_dep = [a_ for a_ in dep if a_[1] != i and not a_[0] in ('s', 't')]
+                    if bad_dep:
+                        res['dep_violation'] = {'lane': i, 'depends_on': sorted(bad_dep)[:4]}
+                        break
+    except Exception as e:                  # a term the renamer cannot rebuild: no statement
+        res['uniform_error'] = repr(e)[:120]
     if getattr(op, 'whole', False):
         return whole_check(res, op, ty, cfg, var, ev, specargs, n)
     if ret is None or isinstance(ret, lanes.Ptr) or isinstance(ret, dict):
